@@ -169,8 +169,9 @@ WordColon(c) == Word(c) \/ c = "COLON"
 Blocked(c) == c = "COLON" \/ Word(c) \/ c = "BS"      \* a parameter may not follow  :  \w  or a backslash
 At(t, i)   == IF i >= 1 /\ i <= Len(t) THEN t[i] ELSE "END"
 Free(t, i) == ~Blocked(At(t, i - 1))
+\* length of the longest run of P-characters starting at i (greedy \w+ and the like)
 Run(t, i, P(_)) == IF i > Len(t) THEN 0
-                   ELSE Max({k \in 0..(Len(t) - i + 1) : \A j \in i..(i + k - 1) : P(t[j])})
+                   ELSE Min({j \in i..(Len(t) + 1) : j = Len(t) + 1 \/ ~P(t[j])}) - i
 NoM == [len |-> 0, a |-> 0, b |-> 0, q |-> ""]
 Mt(len, a, b, q) == [len |-> len, a |-> a, b |-> b, q |-> q]      \* match of `len` characters, name = t[a..b]
 
@@ -251,8 +252,8 @@ PhAlphabet(st) ==
      [] st = "numeric_dollar" -> {"DOLLAR", "LBR", "RBR", "D", "W", "O"}
      [] st = "percent"        -> {"PCT", "S", "W", "COLON", "BS", "O"}
      [] st = "ampersand"      -> {"AMP", "LBR", "RBR", "W", "O"}
-PhLen(st) == MaxLen + (IF st \in {"pyformat", "flyway_var", "colon_nospaces", "colon_optional_quotes",
-                                   "dollar_surround", "ampersand"} THEN 1 ELSE 0)
+\* the styles whose shortest parameter is 4-6 characters long get one more character
+PhLen(st) == MaxLen + (IF st \in {"pyformat", "flyway_var", "colon_optional_quotes"} THEN 1 ELSE 0)
 
 PhRecord(st, t) == [style |-> st, s |-> t, segs |-> PhSegs(st, t)]
 PhExtend == /\ Part = "ph" /\ Len(s) < PhLen(m.style)
